@@ -27,6 +27,11 @@ CHECKS = {
             "Exactness for all tensors is decided symbolically (linear forms over 21 atoms, all 15 keys, 3 orthonormal splits of the degenerate eigenspace); the real solver is bound by comparing its request bags and rotated strains with the exported ones and by feeding it exact rotated components of 21 basis + random tensors.",
             "Trusted: numpy.einsum rotation of test tensors in the harness; Q(sqrt d) arithmetic of QuadField.tla; the degenerate eigenspace is covered by three splits, not all.",
             "DESIGN.md section 4 C03"),
+    "C04": ("model_checking",
+            "TLC model checking of the work-list scheduler (spec/TaskScheduler.tla on instances exported from ShearSolver via SchedInstance.tla): all requests up to a bound, every pop order, three strain scenarios; trace validation of hook-recorded runs (Trace_Sched.tla); replay of TLC-simulated request sequences",
+            "Design-level: Final/acyclic/DepsFirst/NoStuck/Complete/termination checked exhaustively for <=2 (quick) / <=3 (thorough) requested keys of a 9-key pool covering all key classes under ANY pop order, plus the isotropic-limit theorem. Implementation-level: every recorded resolve/calculate/get run is validated step by step against the faithful bag model (queue lengths, dedup decisions, edges, evaluation order, isothermal-only reads), and request independence / isotropy / axis covariance are checked on the numbers for simulated request sequences incl. the full 21-key request.",
+            "Trusted: projection of real task parameters onto specification task ids by strain values (cv/schedtrace.py); runs whose projection is not injective (ordered vs unordered off-diagonal pairs) are skipped for trace validation and counted in the evidence. Bounds: MaxReq 2/3 on a 9-key pool for exhaustive exploration.",
+            "DESIGN.md section 4 C04"),
 }
 
 NOT_YET = {
@@ -59,7 +64,7 @@ def main():
             "guard": "CIJ_VERIF_TRACE",
             "enable": "checks export CIJ_VERIF_TRACE=1 before importing cij (harness/run.py); /repo is an editable install, nothing is rebuilt",
             "baseline_off_cmd": "cd /repo && env -u CIJ_VERIF_TRACE /venv/bin/python -m pytest -ra -q -p no:cacheprovider --timeout=900 --continue-on-collection-errors",
-            "source_commits": [],
+            "source_commits": ["0f4d419"],
             "add_only": True,
         },
         "engines": [
